@@ -389,4 +389,137 @@ def c09(tier):
     return ck.finish()
 
 
-CHECKS = {"C05": c05, "C06": c06, "C08": c08, "C09": c09}
+# ------------------------------------------------------------------ C10
+BIG = [l.strip() for l in open(os.path.join(DATA, "roots_big.fen")) if l.strip() and not l.startswith("#")]
+TINY = ["8/8/4k3/8/8/8/8/4K3 w - - 0 1", "7k/5K2/8/6P1/8/8/8/8 b - - 0 1", "k7/8/1K6/8/8/8/8/7R w - - 0 1", "8/8/8/3k4/8/8/8/3K4 w - - 0 1"]
+
+
+def c10(tier):
+    ck = Check("C10", tier, "exploration")
+    plain = build.build("plain")
+    exe = build.build("asan")
+    full = tier == "thorough"
+    rnd = random.Random(core.seed())
+    # D: the index-bound invariants of the design
+    ck.cov["design"] = design(ck)
+    ck.cov["design_as_written"] = design_as_written(ck, ["no_clamp"])
+    asan_env = {"ASAN_OPTIONS": "detect_leaks=0:abort_on_error=0:exitcode=66", "UBSAN_OPTIONS": "print_stacktrace=1:halt_on_error=1:exitcode=67"}
+    sessions = []   # (name, script lines, wellformedness trace or None)
+
+    # 1. games longer than the history table: position ... moves with 801+ plies, then searches, then more moves
+    wf_shards = []
+    for gi, plies in enumerate([1000, 1700, 805] + ([2500, 3200, 801, 900] if full else [])):
+        gf = os.path.join(ck.work, "long%d.txt" % gi)
+        core.run_vh(plain, ["long-game", "--plies", plies, "--out", gf, "--seed", core.seed() * 31 + gi])
+        ms = open(gf).read().split()
+        if len(ms) < 801:
+            raise InfraError("long-game generator produced only %d plies" % len(ms))
+        # well-formedness witness for the monitor: every move legal, the game never over
+        tr = os.path.join(ck.work, "wf.%d.ndjson" % gi)
+        with open(tr, "w") as f:
+            f.write(json.dumps({"e": "reset", "fen": "rnbqkbnr/pppppppp/8/8/8/8/PPPPPPPP/RNBQKBNR w KQkq - 0 1"}) + "\n")
+            for m in ms:
+                f.write(json.dumps({"e": "do", "m": m, "wf": True}) + "\n" + json.dumps({"e": "commit"}) + "\n")
+        wf_shards.append(tr)
+        k = len(ms) - 40
+        script = ["ucinewgame", "position startpos moves " + " ".join(ms[:k]), "go depth 2", "position startpos moves " + " ".join(ms), "go depth 3", "isready"]
+        script += ["position startpos moves " + " ".join(ms[:799]), "go depth 1", "position startpos moves " + " ".join(ms[:800]), "go depth 1",
+                   "position startpos moves " + " ".join(ms[:801]), "go depth 1"]
+        sessions.append(("long_game_%d_plies" % len(ms), script))
+    # 2. depth limits beyond the per-depth arrays, on tiny trees and through the real front end
+    script = ["ucinewgame"]
+    for fen in TINY:
+        for d in [40, 41, 60, 200] + ([42, 100, 1000000] if full else []):
+            script += ["position fen " + fen, "go depth %d" % d]
+    sessions.append(("depth_limits_beyond_max", script))
+    # 3. move-list and piece-list capacities: 218 legal moves, ten pieces of a kind, many queens
+    script = ["ucinewgame"]
+    for fen in BIG:
+        script += ["position fen " + fen, "go depth 2", "perft 2", "go depth 3 searchmoves"]
+    sessions.append(("move_and_piece_list_capacity", script))
+    # 4. searchmoves with every legal move, repeated ucinewgame, ordinary play by the engine against itself
+    pool = make_pool(ck, plain, 30, 60)
+    script = []
+    for i in range(40 if full else 12):
+        p = rnd.choice(pool)
+        script += ["ucinewgame", "position fen " + p["fen"], "go depth %d searchmoves %s" % (rnd.randint(1, 3), " ".join(p["moves"])),
+                   "go movetime %d" % rnd.choice([1, 5, 30]), "go wtime 50 btime 50 winc 1 binc 1", "go nodes %d" % rnd.choice([1, 500, 20000])]
+    sessions.append(("searchmoves_all_and_newgames", script))
+    # 5. deep forcing lines: long check sequences and capture chains at a high iteration count (search stack)
+    script = ["ucinewgame"]
+    for fen in ["6k1/8/8/8/8/8/q7/4K2R w K - 0 1", "k7/8/8/8/8/8/1Q6/K7 w - - 0 1", "3rk3/3r4/3r4/3r4/3R4/3R4/3R4/3RK3 w - - 0 1",
+                "r1b1k2r/ppppqppp/2n2n2/2b1p3/2B1P3/2N2N2/PPPPQPPP/R1B1K2R w KQkq - 0 1"]:
+        script += ["position fen " + fen, "go depth %d" % (9 if full else 6)]
+    sessions.append(("forcing_lines", script))
+
+    others = {}
+    results = []
+    for name, script in sessions:
+        sf = os.path.join(ck.work, name + ".uci")
+        open(sf, "w").write("\n".join(script) + "\n")
+        r = core.run_vh(exe, ["uci-session", "--script", sf, "--wait-ms", 240000], timeout=3000, check=False, env=asan_env)
+        err = "\n".join(l for l in r.stderr.splitlines() if l.strip())
+        report = None
+        if "runtime error:" in err or "ERROR: AddressSanitizer" in err or r.returncode != 0:
+            first = [l for l in err.splitlines() if "runtime error:" in l or "ERROR: AddressSanitizer" in l or "SESSION HUNG" in l]
+            what = first[0] if first else "exit status %d" % r.returncode
+            where = what.split(" runtime error:")[0].strip() if "runtime error:" in what else ""
+            kind = "history_overflow" if "uint64_t[800]" in what or "_history" in what else ("sanitizer_report" if first else "abnormal_exit")
+            report = dict(prop="C10", kind=kind, session=name, detail=dict(report=what[:400], where=where, exit=r.returncode, stderr_tail=err[-1200:]))
+            ck.discrepancy({"kind": kind, "where": where.split("/")[-1] if where else "", "session": name.split("_")[0] + "_" + name.split("_")[1]}, report)
+        summ = None
+        try:
+            summ = json.loads(r.stdout.strip().splitlines()[-1])
+        except Exception:
+            pass
+        results.append(dict(session=name, commands=len(script), exit=r.returncode, summary=summ, sanitizer=report["detail"]["report"] if report else None))
+        if summ:
+            if summ["gos"] != summ["answered"]:
+                ck.discrepancy({"kind": "go_not_answered", "session": name}, dict(prop="C10", kind="go_not_answered", session=name, detail=summ))
+            if summ["max_depth_index"] > 40 or summ["max_ply"] + 1 >= 80:
+                ck.discrepancy({"kind": "index_out_of_bounds", "session": name}, dict(prop="C10", kind="index_out_of_bounds", session=name, detail=summ))
+    # well-formedness of the generated long games, decided by the rules specification
+    viols, cnt, st = core.validate_shards(wf_shards)
+    ck.add_states(st["generated"], st["distinct"])
+    illformed = [v for v in viols if v.get("kind") in ("illformed_session", "uninterpretable_move")]
+    if illformed:
+        raise InfraError("generated long game is not a legal game: %s" % json.dumps(illformed[0])[:400])
+    if cnt.get("wf_cmp", 0) == 0:
+        raise InfraError("vacuous well-formedness validation")
+    # in-process runs under the sanitizers with the hook-observed indices validated by the SearchTrace monitor
+    plan = []
+    for fen in BIG + TINY:
+        for d in [1, 2, 3]:
+            plan.append(plan_line(fen, "depth %d" % d, tt=rnd.choice(["fresh", "warm", "poison"]), tag="cap"))
+    for i in range(200 if full else 40):
+        p = rnd.choice(pool)
+        plan.append(plan_line(p["fen"], rnd.choice(["depth 2", "depth 3", "depth 4", "movetime 5", "nodes 3000"]), tt=rnd.choice(["warm", "poison"]),
+                              stop_id=rnd.choice(["", "", "node", "qnode"]), stop_n=rnd.randint(1, 500), tag="cap"))
+    v2, c2, info, sh = run_plan(ck, exe, plan, "c", env_extra=asan_env, timeout=3000)
+    take(ck, "C10", v2, others)
+    for c in info.get("crashes", []):
+        tail = c["detail"].get("stderr_tail", "")
+        first = [l for l in tail.splitlines() if "runtime error:" in l or "ERROR: AddressSanitizer" in l]
+        ck.discrepancy({"kind": "sanitizer_report" if first else "abnormal_exit", "where": (first[0].split(" runtime error:")[0].split("/")[-1] if first and "runtime error:" in first[0] else ""),
+                        "session": "inprocess"}, dict(c, prop="C10"))
+    ck.cov["evaluations"] = sum(r["commands"] for r in results) + c2["go"]
+    ck.cov["distinct_nontrivial"] = len(sessions) + c2["go"]
+    ck.cov["rule"] = ("boundary sessions of every fixed-size table, run through the real UCI front end (Uci::loop reader thread + search threads) in a child process of the harness "
+                      "built with AddressSanitizer + UndefinedBehaviorSanitizer (array-bounds checks on every fixed-size array): legal games of 801..%d plies (generated, and "
+                      "validated as legal, never-finished games by the RulesTrace monitor: %d moves checked) replayed with `position ... moves` at 799/800/801 plies and beyond, "
+                      "`go depth` 40/41/60/200 on tiny trees, positions with 218 legal moves and ten pieces of one kind through go and perft, searchmoves with every legal move, "
+                      "repeated ucinewgame with depth/movetime/clock/node limits, forcing lines at higher depth; plus in-process searches under the sanitizers whose hook-observed "
+                      "indices (per-depth array index, search-stack ply) are checked by the SearchTrace monitor. A sanitizer report, an abnormal exit or an unanswered go is a "
+                      "violation. Design level: index-bound invariants of SearchSession.tla") % (3200 if full else 1700, cnt["wf_cmp"])
+    ck.cov["sessions"] = results
+    ck.cov["monitor_counters"] = c2
+    ck.cov["traces_validated_against_impl"] += len(sessions)
+    ck.sample(dict(session=sessions[1][0], script=sessions[1][1][:6]))
+    ck.sample(dict(session=sessions[0][0], script=[l[:120] + " ..." for l in sessions[0][1][:3]]))
+    ck.assumptions += ["memory safety is observed (sanitizers on generated boundary sessions), not proved; use of uninitialised values is not decided (no MSan-instrumented libstdc++ here)",
+                       "out-of-bounds accesses at sites neither reached by these sessions nor covered by the index-bound invariants are not detected"]
+    note_others(ck, others)
+    return ck.finish()
+
+
+CHECKS = {"C05": c05, "C06": c06, "C08": c08, "C09": c09, "C10": c10}
